@@ -242,6 +242,9 @@ func c04Scenarios(tier string) []*Scenario {
 	add("halfopen-straggler-reopen-fail", []Spec{HOD(2, 2)}, 0, []ExeSpec{{Script: fail(30)}, {Script: fail(5), StartAt: 1}}, true)
 	add("halfopen-straggler-next-period", []Spec{HOD(2, 2)}, 0, []ExeSpec{{Script: ok(30)}, {Script: fail(5), StartAt: 1}, {Script: ok(10), StartAt: D + 50}, {Script: ok(10), StartAt: D + 50}}, true)
 	add("halfopen-straggler-close", []Spec{HOD(1, 2)}, 0, []ExeSpec{{Script: fail(30)}, {Script: ok(5), StartAt: 1}, {Script: fail(5), StartAt: 40}}, true)
+	// a saturated half-open breaker whose thresholds survive single failures: executions it rejects free no permits
+	add("halfopen-cap2-saturated", []Spec{{Kind: KBreaker, FT: 1, FC: 1, ST: 1, SC: 2, BDelay: Long, Pre: "halfopen"}}, 0,
+		[]ExeSpec{{Script: ok(20)}, {Script: ok(20)}, {Script: ok(5), StartAt: 2}, {Script: ok(5), StartAt: 3}}, true)
 	// a success threshold combined with a larger failure-side capacity: the trial capacity is the success side's
 	add("halfopen-cap-combined", []Spec{{Kind: KBreaker, FT: 3, FC: 5, ST: 2, SC: 2, BDelay: Long, Pre: "halfopen"}}, 0, []ExeSpec{{Script: ok(10)}, {Script: ok(10)}, {Script: ok(10)}, {Script: ok(10)}}, true)
 	add("halfopen-cap-combined-ratio", []Spec{{Kind: KBreaker, FT: 4, FC: 4, ST: 1, SC: 2, BDelay: Long, Pre: "halfopen"}}, 0, []ExeSpec{{Script: fail(10)}, {Script: ok(10)}, {Script: ok(10)}}, true)
